@@ -616,7 +616,7 @@ func c08RawSenders(res *vlib.Result, exprs []string, st c09State) {
 		}
 		want[n] = r
 	}
-	for _, sender := range []string{"strings", "bytes-separate", "bytes-shared-buffer"} {
+	for _, sender := range []string{"strings", "bytes-separate", "bytes-shared-buffer", "strings-padded"} {
 		res.Evals++
 		sb := &netsim.Buf{}
 		m := message.NewMessageForStream(c09Stream(st, sb))
@@ -625,6 +625,15 @@ func c08RawSenders(res *vlib.Result, exprs []string, st c09State) {
 		switch sender {
 		case "strings":
 			err = m.PutClassAdRaw(ctx, lines, "Machine", "Job")
+		case "strings-padded":
+			// pre-rendered text with blanks / a tab around the name and the '=' (legal for the full
+			// parser, which names the attribute without them)
+			var padded []string
+			for i, l := range lines {
+				eq := strings.Index(l, " = ")
+				padded = append(padded, []string{"  ", "\t", " "}[i%3]+l[:eq]+[]string{" =  ", "\t= ", "="}[i%3]+l[eq+3:])
+			}
+			err = m.PutClassAdRaw(ctx, padded, "Machine", "Job")
 		case "bytes-separate":
 			var bs [][]byte
 			for _, l := range lines {
